@@ -42,7 +42,11 @@ RULE = ('Hypothesis: FileSpec (1-5 dims of length 1-5, 1-5 numeric variables '
         '(sum/min/max/prod, mean on unmasked data) on >=2 dimensions: '
         'library results for reversed keyword order agree.  ~1/5 of cases go '
         'through the command-line string forms core._functions.reduce_dim('
-        '"dim,reducer") and convolve_dim("dim,mode,w1,..") on one '
+        '"dim,reducer"; half with the method reducers, half with reducers '
+        'that are not array methods and go through _getfunc\'s module lookup:'
+        ' median/average/amax/amin/ptp on any data, nan* on files without a '
+        'masked variable on the dimension; oracle = the plain numpy function '
+        'on the VALID elements of every 1-D slice, all-masked slice -> masked) and convolve_dim("dim,mode,w1,..") on one '
         'dimension: dimension lengths, values (same tolerances, result dtype '
         'of reduce_dim not judged) and masks, where a cell that should be '
         'masked may instead hold the declared fill value (Pseudo2NetCDF '
@@ -64,6 +68,15 @@ BUDGET = {'quick': dict(examples=6400, max_s=240),
 
 REDUCERS = ['mean', 'sum', 'min', 'max', 'std', 'var', 'prod']
 COMMUTING = ('sum', 'min', 'max', 'prod')
+# module-level reducers (not ndarray methods) that numpy and numpy.ma both
+# provide with (a, axis=, keepdims=), and the numpy-only nan* family (data is
+# finite, so they equal their plain counterparts); value = what they compute
+# from the valid elements of one 1-D slice
+MODRED_BOTH = {'median': np.median, 'average': np.mean, 'amax': np.max,
+               'amin': np.min, 'ptp': np.ptp}
+MODRED_NP = {'nanmean': np.mean, 'nansum': np.sum, 'nanmin': np.min,
+             'nanmax': np.max, 'nanstd': np.std, 'nanvar': np.var,
+             'nanmedian': np.median, 'nanprod': np.prod}
 FOPTS = dict(max_len=5, max_dims=5, max_vars=5, attrs=True, masked=True,
              char=False, vrange=100)
 
@@ -111,15 +124,27 @@ def cases(draw, tier='quick'):
     pick = draw(st.integers(0, 19))
     if pick == 7 and any(fd[0] != 'red' for d, fd in fl):
         form = 'dict'
-    if pick >= 14 and used:
+    if pick >= 12 and used:
         # string forms used by the command line: one dimension
         d = draw(st.sampled_from(used))
         if not isinstance(fs['gattrs'].get('history', ''), str):
             # the string forms append to the (textual) history attribute
             fs['gattrs'].pop('history')
-        if pick in (14, 16, 18):
+        sub = draw(st.sampled_from(['conv', 'modred', 'method', 'conv',
+                                   'modred']))
+        if sub != 'conv':
+            if sub == 'method':
+                return dict(file=fs, form='plain', entry='reduce_dim',
+                            funcs=[[d, ['red',
+                                        draw(st.sampled_from(REDUCERS))]]])
+            # reducer names that are NOT array methods: _getfunc resolves
+            # them to numpy.ma.<name> for masked data, numpy.<name> otherwise
+            names = list(MODRED_BOTH)
+            if not any(d in v['dims'] and v.get('mask') is not None
+                       for v in fs['vars']):
+                names = names + list(MODRED_NP)
             return dict(file=fs, form='plain', entry='reduce_dim',
-                        funcs=[[d, ['red', draw(st.sampled_from(REDUCERS))]]])
+                        funcs=[[d, ['modred', draw(st.sampled_from(names))]]])
         fd = draw(funcs(dlen[d]).filter(lambda f: f[0] == 'conv'))
         return dict(file=fs, form='plain', entry='convolve_dim',
                     funcs=[[d, fd]])
@@ -178,7 +203,7 @@ def lib_func(fd):
 
 
 def out_len(fd, n):
-    if fd[0] == 'red':
+    if fd[0] in ('red', 'modred'):
         return 1
     return int(np.asarray(lib_func(fd)(np.arange(n, dtype='f8'))).size)
 
@@ -214,6 +239,20 @@ def model_step(arr, axis, fd):
     np.ma.convolve / np.diff / np.cumsum / slicing honour them)"""
     if fd[0] == 'red':
         return getattr(arr, fd[1])(axis=axis, keepdims=True)
+    if fd[0] == 'modred':
+        # masked elements excluded, as masked-array arithmetic does: the
+        # plain numpy function on the valid elements of every 1-D slice; a
+        # slice without valid elements gives a masked cell
+        base = dict(MODRED_BOTH, **MODRED_NP)[fd[1]]
+
+        def one(x):
+            if isinstance(x, np.ma.MaskedArray):
+                v = x.compressed()
+                if v.size == 0:
+                    return np.ma.MaskedArray([0.0], mask=[True])
+                return np.ma.MaskedArray([base(v)], mask=[False])
+            return np.atleast_1d(base(np.asarray(x)))
+        return apply_1d(arr, axis, one)
     fn = lib_func(fd)
     return apply_1d(arr, axis, lambda x: np.ma.atleast_1d(fn(x))
                     if isinstance(x, np.ma.MaskedArray)
@@ -273,8 +312,8 @@ def check_string_form(case):
     f = S.build_file(fs)
     d, fd = case['funcs'][0]
     entry = case['entry']
-    r.label('entry:' + entry, 'f:' + (fd[0] if fd[0] != 'red'
-                                      else 'red:' + fd[1]))
+    r.label('entry:' + entry, 'f:' + (fd[0] if fd[0] not in ('red', 'modred')
+                                      else fd[0] + ':' + fd[1]))
     n = m.dims[d][0]
     if entry == 'reduce_dim':
         arg = '%s,%s' % (d, fd[1])
@@ -296,6 +335,11 @@ def check_string_form(case):
     for mv in touched:
         if mv.masked:
             r.label('masked-touched')
+            if fd[0] == 'modred':
+                r.label('modred-on-masked-variable')
+                if np.ma.getmaskarray(mv.data).any():
+                    nt = True
+                    r.label('modred-with-masked-cells')
             i = list(mv.dims).index(d)
             if 0 < i < len(mv.dims) - 1:
                 nt = True
